@@ -19,6 +19,7 @@ func init() {
 	vhRegister("vh_C11_link_twin", vh_C11_link_twin)
 	vhRegister("vh_C11_layout", vh_C11_layout)
 	vhRegister("vh_C11_dsse", vh_C11_dsse)
+	vhRegister("vh_C11_dsse_utf8", vh_C11_dsse_utf8)
 }
 
 // ---- reference canonical JSON -------------------------------------------------
@@ -521,10 +522,24 @@ func vspecJSONUnescapeControls(doc string) (string, bool) {
 	return out, true
 }
 
+// vh_C11_dsse_utf8: the same with a two-byte UTF-8 character (any code point U+0080..U+07FF) next to an ASCII byte.
+func vh_C11_dsse_utf8(a []int) {
+	u := vBytes("utf8", 2)
+	vAssume(vAnd(vLeByte(0xc2, u[0]), vLeByte(u[0], 0xdf)))
+	vAssume(vAnd(vLeByte(0x80, u[1]), vLeByte(u[1], 0xbf)))
+	asc := vBytes("ascii", a[0])
+	vhASCII(asc)
+	vhC11DSSE(asc + u)
+}
+
 // a = {length of the symbolic string}
 func vh_C11_dsse(a []int) {
 	s := vBytes("byproduct", a[0])
 	vhASCII(s)
+	vhC11DSSE(s)
+}
+
+func vhC11DSSE(s string) {
 	l := Link{Type: "link", Name: "n", ByProducts: map[string]interface{}{"stdout": s}}
 	e := &Envelope{}
 	err := e.SetPayload(l)
